@@ -132,20 +132,26 @@ def codec_cases(ctx, n_random):
     # ---- encode: edges for every type/base/grouping
     for t in TYPES:
         lo, hi = tmin(t), tmax(t)
-        vals = {lo, hi, lo + 1, hi - 1, 0, 1, -1, 2, 9, 10, 11, 15, 16, 17, 255, 256}
-        for b in (2, 10, 16):
+        combos = set()
+        for v in (lo, hi, lo + 1, hi - 1, 0, 1, -1, 2, 9, 10, 11, 15, 16, 17, 255, 256):
+            for b in (2, 10, 16):
+                for g in (0, 1):
+                    combos.add((b, g, v))
+        for b in (2, 10, 16):          # all powers of the base +-1, in that base (and one other)
             p = 1
             while p <= hi + 1:
-                vals.update([p - 1, p, p + 1, -p - 1, -p, -p + 1])
+                for v in (p - 1, p, p + 1, -p - 1, -p, -p + 1):
+                    for g in (0, 1):
+                        combos.add((b, g, v))
+                    combos.add((r.choice((2, 10, 16)), r.randint(0, 1), v))
                 p *= b
         for g, k in ((3, 10), (4, 16), (8, 2)):      # grouping boundaries
             for e in range(0, 70, g):
-                vals.update([k ** e - 1, k ** e, -(k ** e), -(k ** e) + 1])
-        vals = sorted(v for v in vals if lo <= v <= hi)
-        for v in vals:
-            for b in (2, 10, 16):
-                for g in (0, 1):
-                    enc.append((t, b, g, v))
+                for v in (k ** e - 1, k ** e, -(k ** e), -(k ** e) + 1):
+                    combos.add((k, 1, v))
+        for b, g, v in sorted(combos):
+            if lo <= v <= hi:
+                enc.append((t, b, g, v))
         for _ in range(n_random):
             k = r.random()
             v = r.randint(lo, hi) if k < 0.5 else max(lo, min(hi, int(r.choice([-1, 1]) * 2 ** (r.random() * t[1]))))
@@ -188,8 +194,83 @@ def codec_cases(ctx, n_random):
     return enc, dec, tok
 
 
+class SharedCases(fw.CoqCases):
+    """CoqCases whose cases may refer to named definitions: obj["defs"] = [(name, type, term)];
+    every shard file defines (once) what its cases use.  Same protocol and output as fw.CoqCases."""
+
+    def run(self, cases):
+        import shutil
+        import subprocess
+        import time
+        d = os.path.join(self.ctx.bdir, "cases_" + self.name)
+        shutil.rmtree(d, ignore_errors=True)
+        os.makedirs(d)
+        shards = [cases[i:i + self.shard] for i in range(0, len(cases), self.shard)]
+        paths = []
+        for k, sh_cases in enumerate(shards):
+            p = os.path.join(d, "Cases_%s_%d.v" % (self.name, k))
+            with open(p, "w") as f:
+                f.write("From Coq Require Import ZArith NArith List String Bool Ascii.\nImport ListNotations.\n")
+                f.write("Require Import EmbossV.Lib.Cases.\n")
+                f.write(self.header + "\n")
+                done = set()
+                for _, _, obj in sh_cases:
+                    for nm, ty, term in obj.get("defs", []):
+                        if nm not in done:
+                            done.add(nm)
+                            f.write("Definition %s : %s := %s.\n" % (nm, ty, term))
+                f.write("Definition the_cases : list (%s * %s) := [\n" % (self.in_ty, self.out_ty))
+                f.write(";\n".join("(%s, %s)" % (a, b) for a, b, _ in sh_cases))
+                f.write("\n].\n")
+                f.write("Definition bad := mismatches (%s) (%s) the_cases.\n" % (self.fn, self.eqb))
+                f.write('Redirect "%s" Eval vm_compute in bad.\n' % os.path.join(d, "bad_%d" % k))
+                f.write('Redirect "%s" Eval vm_compute in outputs_at (%s) the_cases bad.\n'
+                        % (os.path.join(d, "out_%d" % k), self.fn))
+            paths.append(p)
+        results = [None] * len(paths)
+        idx, running = 0, []
+        t_end = time.time() + self.timeout
+        while idx < len(paths) or running:
+            while idx < len(paths) and len(running) < fw.NPROC:
+                pr = subprocess.Popen(["coqc"] + fw.COQ_FLAGS + [paths[idx]], cwd=d, stdout=subprocess.PIPE,
+                                      stderr=subprocess.STDOUT, text=True, errors="replace")
+                running.append((idx, pr))
+                idx += 1
+            still = []
+            for k, pr in running:
+                if pr.poll() is None:
+                    if time.time() > t_end:
+                        pr.kill()
+                        results[k] = (124, "timeout")
+                    else:
+                        still.append((k, pr))
+                else:
+                    results[k] = (pr.returncode, pr.stdout.read())
+            running = still
+            if running:
+                time.sleep(0.05)
+        bad = []
+        for k, (rc, out) in enumerate(results):
+            if rc != 0:
+                raise fw.CoqEvalError("coqc failed on %s: %s" % (paths[k], out[-3000:]))
+            txt = open(os.path.join(d, "bad_%d.out" % k)).read()
+            body = txt.split("=", 1)[1].rsplit(":", 1)[0]
+            idxs = [int(x) for x in re.findall(r"(\d+)%N", body)] if "%N" in body else [int(x) for x in re.findall(r"\d+", body)]
+            if idxs:
+                outtxt = open(os.path.join(d, "out_%d.out" % k)).read()
+                for i in idxs:
+                    bad.append((k * self.shard + i, outtxt.strip()))
+        return bad
+
+
+def _tick(ctx, label):
+    import time
+    now = time.time()
+    fw.log("  [%6.1fs] %s" % (now - ctx.t0, label))
+
+
 def run_codec_tie(ctx):
-    n_random = 400 if ctx.thorough() else 60
+    n_random = 400 if ctx.thorough() else 40
     enc, dec, tok = codec_cases(ctx, n_random)
     lines = []
     for t, b, g, v in enc:
@@ -210,6 +291,7 @@ def run_codec_tie(ctx):
                       dict(kind="driver", stage=res.stage, log=res.log[-4000:]), found_input=False)
         return
     out = res.lines
+    _tick(ctx, "codec driver built and run (%d lines)" % len(lines))
     if len(out) != len(lines):
         ctx.obligation("codec driver answered every line", False)
         ctx.violation("codec-driver:lines", "driver printed %d lines for %d inputs" % (len(out), len(lines)),
@@ -241,6 +323,7 @@ def run_codec_tie(ctx):
                       dict(kind="tok", text=sb.decode("latin-1"), cpp=[x.decode("latin-1") for x in toks])))
         ctx.count("tok")
     bad = fw.CoqCases(ctx, "codec", HEADER, "run_codec", "cout_eqb", "ccase", "cout", shard=500).run(cases)
+    _tick(ctx, "codec cases evaluated in Coq (%d)" % len(cases))
     for a, b, obj in cases:
         nt = obj["kind"] != "enc" or obj["value"] not in (0, 1)
         ctx.case(("codec", a), nontrivial=nt,
@@ -464,7 +547,7 @@ def cpp_leaf_code(tree):
 def gen_table_probe(ctx):
     """Regenerates the generator's text_output table from the working tree: which of the three
     attribute values produce a write clause (run on the real _generate_structure_definition)."""
-    probe = ('[$default byte_order: "LittleEndian"]\n[(cpp) namespace: "m"]\nstruct P:\n  0 [+1]  UInt  plain\n'
+    probe = ('[$default byte_order: "LittleEndian"]\n[(cpp) namespace: "m"]\nstruct Probe:\n  0 [+1]  UInt  plain\n'
              '  1 [+1]  UInt  skipped\n    [text_output: "Skip"]\n  2 [+1]  UInt  emitted\n    [text_output: "Emit"]\n')
     from compiler.back_end.cpp import header_generator
     ir, errs = parse_module(probe)
@@ -519,10 +602,10 @@ def perturb(r, text, leaves_info):
 
 def run_struct_tie(ctx, gt):
     r = ctx.rng
-    n_mod = 160 if ctx.thorough() else 20
-    n_inst = 5 if ctx.thorough() else 4
-    n_opt = 10 if ctx.thorough() else 7
-    n_pert = 40 if ctx.thorough() else 24
+    n_mod = 160 if ctx.thorough() else 14
+    n_inst = 5 if ctx.thorough() else 3
+    n_opt = 10 if ctx.thorough() else 6
+    n_pert = 40 if ctx.thorough() else 20
     allopts = option_sets(r, ctx.thorough())
     mods = []
     jobs = []
@@ -557,25 +640,28 @@ def run_struct_tie(ctx, gt):
             if rec:
                 for c in rec["cases"]:
                     if c["struct"] == top:
-                        insts.append((c["instance"], bytes.fromhex(c["buffer"]), c.get("options")))
+                        insts.append((_unjson(c["instance"]), bytes.fromhex(c["buffer"]), c.get("options")))
             else:
                 for _ in range(n_inst):
                     inst, raw = mod.instance(mod.sdef(top), r)
                     insts.append((inst, raw, None))
             zero_tree = None
-            for inst, raw, fixed_opts in insts:
+            for ii, (inst, raw, fixed_opts) in enumerate(insts):
                 try:
                     tree = vb.struct_tree(tir, inst)
                 except G.OutOfModel as ex:
                     ctx.count("out-of-model:" + str(ex).split(" ")[0])
                     continue
                 zero_tree = zero_tree or tree
+                vname = "v_%s_%s_%d" % (name, top, ii)
+                vdef = (vname, "tval", G.coq_tval(tree))
                 opts = [(fixed_opts, fixed_opts["multiline"] or not fixed_opts["comments"])] if fixed_opts else \
                     [allopts[0]] + r.sample(allopts[1:], n_opt - 1)
                 for o, reread in opts:
                     lines.append("W %s %s %d %d %d %d %s" % (top, raw.hex() or "-", o["base"], int(o["grouping"]), int(o["multiline"]),
                                                           int(o["comments"]), o["indent"].encode().hex() or "-"))
-                    meta.append(dict(kind="W", top=top, inst=inst, raw=raw, tree=tree, opts=o, reread=reread, flat=flat))
+                    meta.append(dict(kind="W", top=top, inst=inst, raw=raw, tree=tree, opts=o, reread=reread, flat=flat,
+                                     vname=vname, vdef=vdef))
             if flat and zero_tree is not None:
                 parts.append(STRUCT_DRIVER_U % dict(s=top, leaves=cpp_leaf_code(zero_tree)))
                 disp.append('    if (p[0] == "U" && p[1] == "%s") u_%s(p);' % (top, top))
@@ -585,7 +671,9 @@ def run_struct_tie(ctx, gt):
             f.write("\n".join(lines) + "\n")
         jobs.append(cpp_build.CppJob(name, text, "".join(parts), run_args=[inp]))
         mods.append(dict(name=name, mod=mod, text=text, ir=ir, vb=vb, lines=lines, meta=meta, inp=inp, tops=tops))
+    _tick(ctx, "modules generated (%d)" % len(jobs))
     results = cpp_build.run_jobs(wd, jobs, parallel=16, timeout=900)
+    _tick(ctx, "modules built and run")
     # ---- pass 1: text comparison and C++ read-back
     wcases = []
     n_build_fail = 0
@@ -631,16 +719,17 @@ def run_struct_tie(ctx, gt):
                 mt["rb_ok"] = okrb
             # -- Skip / Emit / order on the real text (independent of the model)
             _check_emission(ctx, mt, text.decode("latin-1"), replay, gt)
-            exp = "(%s, %s)" % (G.coq_chars(text), "true" if mt["reread"] else "false")
-            inp_term = "(%s, %s, %s)" % (gt_term(gt), G.coq_opts(o), G.coq_tval(mt["tree"]))
-            wcases.append((inp_term, exp, dict(md=md, mt=mt, replay=replay)))
+            exp = "(%s, %s)" % (G.coq_text(text), "true" if mt["reread"] else "false")
+            inp_term = "(%s, %s, %s)" % (gt_term(gt), G.coq_opts(o), mt["vname"])
+            wcases.append((inp_term, exp, dict(md=md, mt=mt, replay=replay, defs=[mt["vdef"]])))
             if mt["flat"] and mt["reread"]:
                 md["flat_texts"].setdefault(mt["top"], []).append((text.decode("latin-1"), mt))
     # for option sets that are not re-readable (single line + comments) only the text is compared
-    runner = fw.CoqCases(ctx, "write", HEADER + "Definition reread_b (o : opts) : bool := o_multiline o || negb (o_comments o).\n",
+    runner = SharedCases(ctx, "write", HEADER + "Definition reread_b (o : opts) : bool := o_multiline o || negb (o_comments o).\n",
                          "(fun c => let r := run_write c in (fst r, snd r && reread_b (snd (fst c))))", "run_write_eqb",
-                         "(gentab * opts * tval)", "(list Z * bool)", shard=60, timeout=2400)
+                         "(gentab * opts * tval)", "(list Z * bool)", shard=48, timeout=2400)
     bad = runner.run(wcases) if wcases else []
+    _tick(ctx, "write cases evaluated in Coq (%d)" % len(wcases))
     for a, b, obj in wcases:
         mt = obj["mt"]
         ctx.case(("w", a), nontrivial=len(mt["tree"][1]) > 4,
@@ -718,7 +807,18 @@ def _features(tree):
     return out
 
 
+def _has_long_array(n):
+    if n[0] == "array":
+        return len(n[2]) >= 2 or any(_has_long_array(c) for c in n[2])
+    if n[0] == "struct":
+        return any(fi["present"] and _has_long_array(c) for fi, c in n[1])
+    return False
+
+
 def _rb_key(mt, gt):
+    """Names the mechanism when it is recognisable: multi-line arrays are written without separators."""
+    if mt["opts"]["multiline"] and _has_long_array(mt["tree"]) and mt.get("single_line_ok", True):
+        return "text-array-multiline-not-rereadable"
     return "text-roundtrip"
 
 
@@ -836,7 +936,7 @@ def run_update_tie(ctx, mods, results, n_pert, gt):
                 p = perturb(r, text, lv)
                 pb = p.encode("latin-1", "replace")
                 lines.append("U %s %d %s" % (top, size, pb.hex() or "-"))
-                meta.append(dict(top=top, text=pb, tree=base_tree, leaves=lv, size=size))
+                meta.append(dict(top=top, text=pb, tree=base_tree, leaves=lv, size=size, vdef=lst[0][1]["vdef"]))
         md["u_lines"], md["u_meta"] = lines, meta
         inp = os.path.join(ctx.bdir, "inu_%s.txt" % md["name"])
         with open(inp, "w") as f:
@@ -861,14 +961,17 @@ def run_update_tie(ctx, mods, results, n_pert, gt):
                 continue
             vals = [int(x) for x in p[2:]]
             tab = "[" + ";".join("(%s,%s,%s)" % (G.coq_path(path), G.zlit(rng[0]), G.zlit(rng[1])) for path, node, rng in mt["leaves"]) + "]"
-            a = "(schema_of %s, %s, %s)" % (G.coq_tval(mt["tree"]), tab, G.coq_chars(mt["text"]))
+            vname = mt["vdef"][0]
+            a = "(schema_of %s, tab_%s, %s)" % (vname, vname, G.coq_text(mt["text"]))
             b = "(%d, [%s])" % (0 if p[1] == "1" else 1, ";".join(G.zlit(v) for v in vals))
-            ucases.append((a, b, dict(module=md["text"], struct=mt["top"], text=mt["text"].decode("latin-1"), cpp=l, size=mt["size"])))
+            ucases.append((a, b, dict(module=md["text"], struct=mt["top"], text=mt["text"].decode("latin-1"), cpp=l, size=mt["size"],
+                                      defs=[mt["vdef"], ("tab_" + vname, "leaf_tab", tab)])))
             ctx.count("update:" + ("accepted" if p[1] == "1" else "rejected"))
     if not ucases:
         return
-    bad = fw.CoqCases(ctx, "update", HEADER, "run_update_flat", "run_update_flat_eqb", "(sch * leaf_tab * list Z)", "(Z * list Z)",
-                      shard=100, timeout=1800).run(ucases)
+    bad = SharedCases(ctx, "update", HEADER, "run_update_flat", "run_update_flat_eqb", "(sch * leaf_tab * list Z)", "(Z * list Z)",
+                      shard=60, timeout=1800).run(ucases)
+    _tick(ctx, "update cases evaluated in Coq (%d)" % len(ucases))
     for a, b, obj in ucases:
         ctx.case(("u", a), nontrivial=True, sample=None)
     ctx.obligation("correspondence: UpdateFromText on %d perturbed texts (result and every leaf afterwards) agrees with the model" % len(ucases), not bad)
@@ -907,5 +1010,7 @@ def run(ctx):
         ctx.obligation("instance: regenerated text_output table %s satisfies gentab_ok (emit_present / skip_absent apply)" % (gt,), ok)
         ctx.extra["gen_table"] = list(gt)
         # a table that is not the documented one is decided on the real C++ by _check_emission (keys text-output-*-ignored)
+    _tick(ctx, "theorems checked")
     run_codec_tie(ctx)
     run_struct_tie(ctx, gt)
+    _tick(ctx, "done")
